@@ -257,7 +257,7 @@ Init == /\ sid \in Ids
         /\ arch = <<>> /\ rest = sc.entries
         /\ pos = 1 /\ pass = 0 /\ phase = "init"
         /\ imp = ImpInit /\ err = ""
-        /\ tgt = [TgtInit EXCEPT !.blobs = sc.preblobs, !.mans = sc.premans]      \* what the target holds before
+        /\ tgt = [TgtInit EXCEPT !.blobs = sc.preblobs, !.mans = sc.premans, !.tag = sc.pretag]   \* what the target holds before
 
 \* ImageImport up to the first seek
 Begin == /\ phase = "init"
@@ -377,7 +377,7 @@ FinishStep(op) ==
         ELSE IF f.n \in imp.mans
              THEN \* ManifestPut(r, m): by tag, or by digest when the import reference carries a digest
                   tgt' = Write([tgt EXCEPT !.mans = @ \cup {f.n}, !.tag = f.n],
-                               (IF sc.sel.by = "digest" /\ Len(sc.roots) > 1 THEN "m:" ELSE "t:") \o f.n) /\ UNCHANGED <<phase, err>>
+                               (IF sc.sel.by = "digest" THEN "m:" ELSE "t:") \o f.n) /\ UNCHANGED <<phase, err>>
              ELSE phase' = "failed" /\ err' = "could not find manifest to tag" /\ UNCHANGED tgt
   /\ UNCHANGED <<sid, arch, rest, pos, pass>>
 FinishPush == FinishStep("push")
@@ -408,7 +408,7 @@ Spec == Init /\ [][Next]_vars /\ WF_vars(Next)
 KidsPresent(n) == \A i \in 1..Len(Node(n).kids) :
                      LET k == Node(n).kids[i].n IN k \in tgt.blobs \/ k \in tgt.mans
 Closed == \A n \in tgt.mans : KidsPresent(n)
-TagComplete == tgt.tag \notin {"", "dkman"} => tgt.tag \in tgt.mans
+TagComplete == tgt.tag \notin {"", "dkman", "stale"} => tgt.tag \in tgt.mans
 \* a manifest is stored as a manifest, a blob as a blob
 Sorted == (\A n \in tgt.mans : IsMan(n)) /\ (\A n \in tgt.blobs : n \in DOMAIN sc.nodes => ~IsMan(n))
 
